@@ -7,7 +7,7 @@ CONSTANTS
   NewObjs <- MCNewObjs
   MaxDepth = 4
   Starts <- StartsContent2
-  Allowed = {"delete.array.dup", "delete.streamdict", "delete.trailer", "resources.shadow", "contents.refToArray"}
+  Allowed = {}
   Emit = TRUE
   EmitMod = 2000
   EmitModV = 200
